@@ -1,4 +1,5 @@
 import FrappyProofs.Lemmas.StateMachineInv
+import FrappyProofs.Lemmas.StateMachineBusy
 import FrappyModel.Spec.C14
 import FrappyModel.Generated.C14
 /-
@@ -7,8 +8,9 @@ C14 — property theorems (nothing but property theorems, statements and their n
 Proved for every configuration, every program (arbitrary functions of the history), every oracle of
 concurrent requests (at every read of `next_task`) and every operation sequence; the clauses over histories come
 from one coupling invariant between the machine and the observer (`Lemmas/StateMachineInv.lean`).
-`busy_until_finished` holds for requests that are atomic with respect to `cycle` and is refuted for a preempted
-`start_machine` by a proved counterexample.
+`busy_until_finished` holds for requests that are atomic with respect to the transitions of the machine (what the lock
+of the repaired code provides) and is refuted, by a proved counterexample, for a `start_machine` preempted by a
+transition (the code before the repair).
 -/
 namespace Frappy.Props.C14
 open Frappy.SM Frappy.States Frappy.Spec.C14
@@ -107,95 +109,20 @@ theorem last_start_wins (cfg : Cfg) (P : Prog) (idle : Status) (ops : List Op) :
    (run_good cfg P idle ops).mono fun _ _ h => (okAll_parts h).2.2.2.2.2.1,
    (run_good cfg P idle ops).mono fun _ _ h => (okAll_parts h).2.2.2.2.2.2.2.2.2⟩
 
-/-- the requests a program / an operation sequence issues keep to busy status codes -/
-def busyReq (r : Rules) : Req → Prop
-  | .start _ _ _ (some st) => isBusy r st = true
-  | _ => True
-
-def busy_until_finished_statement : Prop :=
-  ∀ (cfg : Cfg) (P : Prog) (idle : Status) (ops : List Op), cfg.hasStates = true →
-    (∀ s st, cfg.rules.statusOf s = some st → isBusy cfg.rules st = true) →
-    (∀ tr s, ∀ q ∈ (P.state tr s).posts, busyReq cfg.rules q) →
-    (∀ tr c, ∀ q ∈ (P.clean tr c).posts, busyReq cfg.rules q) →
-    (∀ n, ∀ q ∈ P.env n, busyReq cfg.rules q) →
-    (∀ q, Op.req q ∈ ops → busyReq cfg.rules q) →
-    BusyUntilFinished idle cfg.rules (history cfg P idle ops)
-
-/-! ### `busy_until_finished`: the proved part
-
-The clause over histories (`busy_until_finished_statement`, requests atomic with respect to `cycle`) is not proved:
-it needs a second invariant (`engaged → busy status`, `not engaged → status = idle status`) carried through every
-definition like the coupling above.  Proved here is its local content: every assignment to `sm.status` that
-`start_machine`, `stop_machine` and `state_transition` make preserves that invariant — for all rules, states,
-pending tasks and status values. -/
-
-/-- the status rules keep to busy codes: attached status codes are busy, and `BUSY` itself is a busy code -/
-structure BusyRules (r : Rules) : Prop where
-  attached : ∀ s st, r.statusOf s = some st → isBusy r st = true
-  busy : r.busy < r.error
-
-theorem getStatus_busy {r : Rules} (hr : BusyRules r) (s : Sid) (d : Nat) (hd : r.busy ≤ d ∧ d < r.error) :
-    isBusy r (getStatus r s d) = true := by
-  unfold getStatus
-  cases h : r.statusOf s with
-  | some st => exact hr.attached s st h
-  | none => simp [isBusy, hd.1, hd.2]
-
-/-- `start_machine` assigns a busy status (any target state, machine active or not, a busy override or none) -/
-theorem busy_until_finished_partial_start {r : Rules} (hr : BusyRules r) (active : Bool) (s : Sid) (ovr : Option Status)
-    (hovr : ∀ st, ovr = some st → isBusy r st = true) : isBusy r (startStatus r active s ovr) = true := by
-  have hg := getStatus_busy hr s r.busy ⟨Nat.le_refl _, hr.busy⟩
-  unfold startStatus
-  cases ovr with
-  | some st => exact hovr st rfl
-  | none =>
-    cases active with
-    | false => exact hg
-    | true => simpa [isBusy] using hg
-
-/-- `stop_machine` keeps the status busy while the machine is still active -/
-theorem busy_until_finished_partial_stop {r : Rules} (hr : BusyRules r) (cur : Sid) (status : Status)
-    (hs : isBusy r status = true) : isBusy r (stopStatus r cur status) = true := by
-  have hd : r.busy ≤ status.1 ∧ status.1 < r.error := by simpa [isBusy] using hs
-  have hg := getStatus_busy hr cur status.1 hd
-  unfold stopStatus
-  simpa [isBusy] using hg
-
-/-- a transition after which the module is still engaged (a state is entered, or a start is waiting) assigns a busy
-status or leaves the (busy) status alone -/
-theorem busy_until_finished_partial_transition {r : Rules} (hr : BusyRules r) (status idle : Status) (p : Pending)
-    (ns : Option Sid) (hs : isBusy r status = true) (heng : ns.isSome = true ∨ ∃ s, p = .start s) (st : Status)
-    (h : transitionStatus r status idle p ns = some st) : isBusy r st = true := by
-  have hd : r.busy ≤ status.1 ∧ status.1 < r.error := by simpa [isBusy] using hs
-  unfold transitionStatus at h
-  cases ns with
-  | some s =>
-    cases hso : r.statusOf s with
-    | none => cases p <;> simp [hso] at h
-    | some st0 =>
-      have h0 := hr.attached s st0 hso
-      have hd0 : r.busy ≤ st0.1 ∧ st0.1 < r.error := by simpa [isBusy] using h0
-      cases p with
-      | none => simp [hso] at h; rw [← h]; exact h0
-      | stop => simp [hso] at h; rw [← h]; simp [isBusy, hd0.1, hd0.2]
-      | start s' =>
-        simp only [hso] at h
-        split at h
-        · simp at h; rw [← h]; exact hs
-        · simp at h; rw [← h]; simp [isBusy, hd.1, hd.2]
-  | none =>
-    rcases heng with hh | ⟨s', rfl⟩
-    · cases hh
-    · simp at h; rw [← h]; exact getStatus_busy hr s' r.busy ⟨Nat.le_refl _, hr.busy⟩
-
-/-- the transition that makes the module idle (machine inactive, no start waiting) assigns the final / stopped status -/
-theorem busy_until_finished_partial_final (r : Rules) (status idle : Status) (p : Pending)
-    (hp : ∀ s, p ≠ .start s) : transitionStatus r status idle p none = some idle := by
-  unfold transitionStatus
-  cases p with
-  | none => rfl
-  | stop => rfl
-  | start s => exact absurd rfl (hp s)
+/-- **A module built on the machine reports a busy status from the start request until the machine has finished, and
+its final or stopped status afterwards** — for every configuration of the mixin, every program, every oracle of
+concurrent requests (atomic with respect to the transitions of the machine: in the code `start_machine`,
+`stop_machine`, `final_status` and `StateMachine._new_state` run under one lock), every operation sequence, provided
+the status codes attached to state functions and given as `status=` overrides are busy codes and `BUSY < ERROR`.
+Every status report in the history is busy while a state function is active or a start is waiting or being entered,
+and is the final / stopped status declared most recently otherwise. -/
+theorem busy_until_finished (cfg : Cfg) (P : Prog) (idle : Status) (ops : List Op) (hs : cfg.hasStates = true)
+    (hr : BusyRules cfg.rules) (hP : BusyProg cfg.rules P) (ho : BusyOps cfg.rules ops) :
+    BusyUntilFinished idle cfg.rules (history cfg P idle ops) :=
+  ⟨(run_busy cfg hs hr P hP idle ops ho).mono fun _ _ h => by
+      simp only [okB, Bool.and_eq_true] at h; exact h.1,
+   (run_busy cfg hs hr P hP idle ops ho).mono fun _ _ h => by
+      simp only [okB, Bool.and_eq_true] at h; exact h.2⟩
 
 /-! ### non-vacuity / concrete scenarios -/
 
@@ -206,8 +133,8 @@ def rules0 : Rules :=
 
 def cfg0 (hs : Bool) : Cfg := { maxloops := 2, hasStates := hs, rules := rules0 }
 
-/-- the hypotheses of the busy lemmas are met by rules with an attached busy status and states without one -/
-example : BusyRules rules0 := by
+/-- the hypotheses of `busy_until_finished` are met by rules with an attached busy status and states without one … -/
+theorem busyRules0 : BusyRules rules0 := by
   refine ⟨?_, by decide⟩
   intro s st h
   simp only [rules0] at h
@@ -268,6 +195,53 @@ example : (judge (100, "") 2 true rules0 [.reqStart, .status (300, "st 0"), .req
 /-- a stop request that finds the machine inactive (here: a start is waiting, not yet taken) owes nothing -/
 example : judge (100, "") 2 true rules0
       (run (cfg0 true) cleanupProg (SM.initial (100, "")) [.req (.start 0 none [] none), .req (.stop (100, "stopped"))]).trace = [] := by
+  decide +kernel
+
+/-! ### the busy clause: a history with restarts, a concurrent stop, `final_status` and status overrides -/
+
+/-- state 0 requests a restart with state 1 and a busy status override from inside its call; state 1 declares a final
+status and finishes; "another thread" requests a stop in the slot just before the transition to inactive -/
+def busyProg : Prog :=
+  { state := fun _ s => { posts := if s = 0 then [.start 1 none [] (some (370, "x"))] else [],
+                          fin := if s = 1 then some (200, "done") else none,
+                          ret := if s = 1 then .finish else .retry },
+    clean := fun _ _ => { posts := [], fin := none, ret := .bad },
+    env := fun n => if n = 9 then [.stop (100, "stopped")] else [] }
+
+def busyOps : List Op :=
+  [.req (.start 0 (some 0) [] none), .cycle, .cycle, .cycle, .req (.start 3 none [] (some (380, "y"))), .cycle, .cycle, .cycle]
+
+theorem busyProg0 : BusyProg rules0 busyProg := by
+  refine ⟨?_, ?_, ?_⟩
+  · intro tr s q hq
+    simp only [busyProg] at hq
+    split at hq
+    · simp at hq; subst hq; show isBusy rules0 (370, "x") = true; decide
+    · simp at hq
+  · intro tr c q hq; simp [busyProg] at hq
+  · intro n q hq
+    simp only [busyProg] at hq
+    split at hq
+    · simp at hq; subst hq; trivial
+    · simp at hq
+
+theorem busyOps0 : BusyOps rules0 busyOps := by
+  intro q hq
+  simp only [busyOps, List.mem_cons, Op.req.injEq, List.not_mem_nil, or_false, reduceCtorEq, false_or] at hq
+  rcases hq with rfl | rfl
+  · trivial
+  · show isBusy rules0 (380, "y") = true; decide
+
+/-- `busy_until_finished` applies to this history … -/
+example : BusyUntilFinished (100, "") rules0 (history (cfg0 true) busyProg (100, "") busyOps) :=
+  busy_until_finished (cfg0 true) busyProg (100, "") busyOps rfl busyRules0 busyProg0 busyOps0
+
+/-- … in which the module reports: busy from the start request on, through the restart requested from inside a state
+function (override), the stop of another thread arriving after `final_status` ("stopping"), then the stopped status
+while idle, then busy again from the next start request on -/
+example : (history (cfg0 true) busyProg (100, "") busyOps).filterMap (fun e => match e with | .status st => some st | _ => none) =
+    [(300, "st 0"), (300, "st 0"), (370, "x"), (370, "x"), (340, "state 1"), (340, "state 1"), (340, "stopping"),
+     (100, "stopped"), (100, "stopped"), (100, "stopped"), (380, "y"), (380, "y"), (380, "y"), (380, "y"), (380, "y")] := by
   decide +kernel
 
 /-! ### `start_machine` preempted by a cycle: the busy clause fails -/
